@@ -31,7 +31,13 @@ type runCtx struct {
 	scratch string
 }
 
+// addressing signatures of the C18 scenario: what C19 (receiver resolution: not lost, not misdirected) borrows from it
+var addressingSigs = map[string]bool{"wrong-group": true, "delivered-to-empty-group": true, "notify-misdirected": true, "addressed-id-ignored": true}
+
 func (c *runCtx) violate(fam string, idx int, sig, what string, detail any) {
+	if c.prop == "C19" && !addressingSigs[sig] {
+		return
+	}
 	path := filepath.Join(c.outDir, c.prop, fmt.Sprintf("%s-%d-s%d.json", fam, idx, c.seed))
 	_ = os.MkdirAll(filepath.Dir(path), 0o755)
 	b, _ := json.MarshalIndent(map[string]any{"property": c.prop, "family": fam, "index": idx, "seed": c.seed, "tier": c.tier, "signature": sig, "what": what, "detail": detail}, "", " ")
@@ -59,7 +65,7 @@ func main() {
 	}
 	c := &runCtx{prop: *prop, tier: *tier, seed: *seed, rep: vh.NewReport(*prop, "conc", *tier, *seed, *shard), outDir: *outDir, cur: *cur, scratch: scratch}
 	start := time.Now()
-	n := map[string][2]int{"C12": {96, 24000}, "C18": {160, 10000}, "C11": {48, 1200}}[*prop]
+	n := map[string][2]int{"C12": {96, 24000}, "C18": {160, 10000}, "C11": {48, 1200}, "C19": {96, 4000}}[*prop]
 	cnt := n[0]
 	if *tier == "thorough" {
 		cnt = n[1]
@@ -89,7 +95,7 @@ func main() {
 		switch *prop {
 		case "C12":
 			runC12(c, i, r)
-		case "C18":
+		case "C18", "C19":
 			runC18(c, i, r)
 		case "C11":
 			runC11(c, i, r)
